@@ -128,6 +128,25 @@ class C16(Prop):
             r, _ = iolib.parse_impl("str", case["cls"], content=text, data_type=case["ext"], file_name="t." + case["ext"],
                                     autocorrect=flag)
             obs["auto" if flag else "plain"] = r
+        # the same content through the file-based entry points
+        path = iolib.put("c16_" + str(abs(hash(text)) % 10 ** 8) + "." + case["ext"], text)
+        obs["auto_file"] = iolib.parse_impl("file", case["cls"], path=path, autocorrect=True)[0]
+        obs["auto_get"] = iolib.parse_impl("get", None, path=path, autocorrect=True)[0]
+        # ... and parsed a second time into the SAME object: the counts are those of the ballots it now holds
+        from preflibtools.instances import OrdinalInstance, CategoricalInstance
+        i2 = (OrdinalInstance if case["cls"] == "ord" else CategoricalInstance)()
+
+        def twice():
+            import warnings
+            with warnings.catch_warnings():
+                warnings.simplefilter("ignore")
+                i2.parse_str(text, case["ext"], file_name="t." + case["ext"], autocorrect=True)
+                i2.parse_str(text, case["ext"], file_name="t." + case["ext"], autocorrect=True)
+            ballots = i2.orders if case["cls"] == "ord" else i2.preferences
+            return {"num_voters": i2.num_voters, "sum_mult": sum(i2.multiplicity.values()),
+                    "num_unique": i2.num_unique_orders if case["cls"] == "ord" else i2.num_unique_preferences,
+                    "len_mult": len(i2.multiplicity), "len_ballots": len(ballots), "distinct": len(set(ballots))}
+        obs["twice"] = call(twice)
         if obs["auto"][0] == "ok":
             inst = iolib.build(obs["auto"][1])
             errs = []
@@ -203,6 +222,23 @@ class C16(Prop):
         bad = [e for e in obs.get("sanity", []) if e.startswith(covered) or " is the same than " in e]
         if bad:
             P(f"sanity checker complains after autocorrect: {bad}", "sanity")
+        for tag in ("auto_file", "auto_get"):
+            r = obs.get(tag)
+            if r is None:
+                continue
+            if r[0] != "ok":
+                P(f"{tag[5:]}-based parsing with autocorrect=True raised {r[1]}", "entry/" + tag)
+            else:
+                df = iolib.diff(iolib.canon(d), iolib.canon(r[1]), skip=("file_name",))
+                if df:
+                    P(f"autocorrect=True through {'parse_file' if tag == 'auto_file' else 'get_parsed_instance'} differs "
+                      f"from parse_str on {df}", "entry/" + tag)
+        tw = obs.get("twice")
+        if tw is not None and tw[0] == "ok":
+            t = tw[1]
+            if t["num_voters"] != t["sum_mult"] or not (t["num_unique"] == t["len_mult"] == t["len_ballots"] == t["distinct"]):
+                P(f"after parsing the content twice into one object with autocorrect=True the counts are not those of "
+                  f"its ballots: {t}", "twice/counts")
         if case["kind"] == "clean":
             if plain[0] != "ok" or iolib.diff(iolib.canon(plain[1]), iolib.canon(d)):
                 P("autocorrect=True and autocorrect=False differ on clean content", "clean")
